@@ -4,7 +4,7 @@ import MelModel.Lemmas.Batch
 import MelModel.Props.C20
 namespace Mel
 namespace C3
-open Mel.Gen
+open Mel.Gen Mel.BatchL
 
 /-! ### generic facts -/
 
